@@ -1,132 +1,8 @@
-//! arena-mc: explicit-state exploration of the real `Bump`/`BumpScope` (DESIGN.md §1, §3).
-//!
-//! usage: arena-mc check --prop C01 --tier quick|thorough [--secs N] [--threads N]
-//!        arena-mc replay --prop C01 --cfg NAME --h H --ctor C --phase P --overgrant O --fail MASK --roundtrip 0|1 --history "..."
-//!        arena-mc list-configs
-
+//! arena-mc: explicit-state exploration of the real `Bump`/`BumpScope` (DESIGN.md §1, §3); see cli.rs.
+mod cli;
 mod configs;
 mod props;
 
-use std::time::{Duration, Instant};
-use vcore::explore::*;
-use vcore::facade::Handle;
-use vcore::json::J;
-use vcore::ops::*;
-use vcore::runner::*;
-use vcore::slab::SlabCfg;
-
-fn arg(args: &[String], name: &str) -> Option<String> {
-    args.iter().position(|a| a == name).and_then(|i| args.get(i + 1).cloned())
-}
-
 fn main() {
-    vcore::crash::install();
-    let args: Vec<String> = std::env::args().collect();
-    let cmd = args.get(1).map(String::as_str).unwrap_or("");
-    match cmd {
-        "list-configs" => {
-            for c in configs::all(true) {
-                println!("{}", c.cfg.name());
-            }
-        }
-        "check" => {
-            let prop = arg(&args, "--prop").expect("--prop");
-            let tier = arg(&args, "--tier").unwrap_or_else(|| "quick".into());
-            let thorough = tier == "thorough";
-            let secs: u64 = arg(&args, "--secs").and_then(|s| s.parse().ok()).unwrap_or(if thorough { 1500 } else { 50 });
-            let threads: usize = arg(&args, "--threads").and_then(|s| s.parse().ok()).unwrap_or_else(|| std::thread::available_parallelism().map_or(8, |n| n.get()));
-            let seed: u64 = std::env::var("VERIF_SEED").ok().and_then(|s| s.parse().ok()).unwrap_or(0);
-            let deadline = Instant::now() + Duration::from_secs(secs);
-            let mut total_viol = 0usize;
-            let mut reports = Vec::new();
-            for mut space in props::spaces(&prop, thorough, deadline, threads) {
-                if let Some(d) = arg(&args, "--depth").and_then(|s| s.parse().ok()) {
-                    space.depth = d;
-                }
-                let r = explore(&space);
-                let j = report_json(&space, &r, &tier, seed);
-                for v in &r.violations {
-                    let vj = J::obj()
-                        .set("prop", prop.as_str())
-                        .set("cfg", v.cfg.as_str())
-                        .set("params", v.params.as_str())
-                        .set("history", v.history.as_str())
-                        .set("step", v.step)
-                        .set("msg", v.msg.as_str())
-                        .set("replay_args", v.replay_args.clone());
-                    println!("VIOL {}", vj.to_string());
-                }
-                total_viol += r.violations.len();
-                let floor_ok = r.nontrivial >= space.floor || r.capped || !r.violations.is_empty();
-                println!("SPACE {}", j.set("floor", space.floor).set("floor_ok", floor_ok).to_string());
-                reports.push((r.histories, r.nontrivial));
-                if total_viol > 0 {
-                    break;
-                }
-            }
-            println!("DONE violations={total_viol}");
-        }
-        "replay" => {
-            let prop = arg(&args, "--prop").expect("--prop");
-            let cfg = arg(&args, "--cfg").expect("--cfg");
-            let entry = configs::all(true).into_iter().find(|c| c.cfg.name() == cfg).unwrap_or_else(|| panic!("unknown configuration {cfg}"));
-            let params = RunParams {
-                ctor: Ctor::parse(&arg(&args, "--ctor").unwrap_or_else(|| "try_new".into())).expect("ctor"),
-                h: Handle::parse(&arg(&args, "--h").unwrap_or_else(|| "direct".into())).expect("handle"),
-                slab: SlabCfg {
-                    phase: arg(&args, "--phase").and_then(|s| s.parse().ok()).unwrap_or(0),
-                    overgrant: arg(&args, "--overgrant").and_then(|s| s.parse().ok()).unwrap_or(0),
-                    fail_mask: arg(&args, "--fail").and_then(|s| s.parse().ok()).unwrap_or(0),
-                },
-                roundtrip: arg(&args, "--roundtrip").map_or(false, |s| s == "1"),
-            };
-            let hist = parse_history(&arg(&args, "--history").unwrap_or_default()).expect("history");
-            let (groups, probes) = props::groups_of(&prop);
-            if let Some(vname) = arg(&args, "--variant") {
-                // C17: reference vs one alternative entry point
-                let variant = props::c17_variants().into_iter().find(|v| v.name == vname).expect("variant");
-                let space = Space {
-                    variants: vec![variant],
-                    prop: &prop,
-                    alphabet: Vec::new(),
-                    depth: 0,
-                    configs: vec![entry],
-                    params: vec![params],
-                    groups,
-                    probes: false,
-                    fault: FaultMode::None,
-                    deadline: Instant::now() + Duration::from_secs(60),
-                    threads: 1,
-                    nontrivial: |_, _| true,
-                    nontrivial_rule: "",
-                    max_violations: 1,
-                    floor: 0,
-                };
-                let reference = run_history_ex(&entry, &hist, &params, groups, true, false, true);
-                let counters = Counters::default();
-                let viols = std::sync::Mutex::new(Vec::new());
-                let stop = std::sync::atomic::AtomicBool::new(false);
-                lockstep(&space, &entry, &params, &hist, &reference, &counters, &viols, &stop);
-                match viols.into_inner().unwrap().first() {
-                    Some(v) => println!("REPLAY VIOLATION step=0 msg={}", v.msg),
-                    None => println!("REPLAY OK"),
-                }
-                return;
-            }
-            // all-steps checking first; if silent, the exploration's own mode (oracles after the last op + probes)
-            let mut out = run_history(&entry, &hist, &params, groups, false, probes);
-            if out.viol.is_none() && out.disabled_at.is_none() {
-                out = run_history(&entry, &hist, &params, groups, true, probes);
-            }
-            match (&out.viol, out.disabled_at) {
-                (Some((_, step, msg)), _) => println!("REPLAY VIOLATION step={step} msg={msg}"),
-                (None, Some(d)) => println!("REPLAY DISABLED at={d}"),
-                (None, None) => println!("REPLAY OK calls={} hash={:#x}", out.calls, out.hash),
-            }
-        }
-        _ => {
-            eprintln!("usage: arena-mc check|replay|list-configs ...");
-            std::process::exit(2);
-        }
-    }
+    cli::run()
 }
